@@ -6,9 +6,9 @@ package c03
 
 import (
 	"bytes"
-	"strings"
 	"context"
 	"fmt"
+	"strings"
 	"testing"
 
 	"cedarsim/hs"
@@ -35,6 +35,9 @@ type params struct {
 	Resume  string     `json:"resume,omitempty"` // "" (full handshake) | authed-keyed | unauth-keyed | authed-keyless | unauth-keyless
 	Where   string     `json:"where,omitempty"`  // resumed, server role: own | fallback (how the server reaches the session)
 	Peer    string     `json:"peer,omitempty"`   // resumed, server role: "" real client | scripted (names the session id regardless)
+	PerCmd  bool       `json:"percmd,omitempty"` // resumed, server role: the strict policy is the per-command one (selector), the default is permissive
+	Cmd0    bool       `json:"cmd0,omitempty"`   // resumed: the command is 0 (UPDATE_STARTD_AD) instead of 60021
+	ByID    bool       `json:"byid,omitempty"`   // resumed, client role: the session is named explicitly (SecurityConfig.SessionID)
 }
 
 var canary = []byte("CANARY-application-payload-7f3a9c")
@@ -215,7 +218,6 @@ func judge(s *kernel.Sim, p params, role string, herr error, n *security.Securit
 	}
 }
 
-
 // runResumed: the endpoint under test, with its strict policy, meets a resumption of a
 // session that was established earlier under a permissive policy (authenticated or not,
 // with a key or without). Both peers are real cedar endpoints. Server-side sessions are
@@ -233,8 +235,12 @@ func runResumed(s *kernel.Sim, c *scen.Case, p params) {
 		lvA = security.SecurityRequired
 	}
 	cliCache := security.NewSessionCache()
+	cmd := 60021
+	if p.Cmd0 {
+		cmd = 0
+	}
 	mkC1 := func() *security.SecurityConfig {
-		cfg := hs.Cfg(lvA, security.SecurityOptional, m, hs.AES, 60021)
+		cfg := hs.Cfg(lvA, security.SecurityOptional, m, hs.AES, cmd)
 		cfg.SessionCache = cliCache
 		return cfg
 	}
@@ -276,11 +282,25 @@ func runResumed(s *kernel.Sim, c *scen.Case, p params) {
 	if p.Role == "server" {
 		ut, utStream = pr.SE, pr.SS
 		cfg := strict(security.NoCommand)
+		var selector func(int) *security.SecurityConfig
+		if p.PerCmd {
+			// the strict policy belongs to the command being resumed; the listener's default is permissive
+			perCmd := cfg
+			cfg = hs.Cfg(security.SecurityOptional, security.SecurityOptional, m, hs.AES, security.NoCommand)
+			selector = func(c int) *security.SecurityConfig {
+				if c == cmd {
+					return perCmd
+				}
+				return nil
+			}
+		}
 		if p.Where == "fallback" {
 			cfg.SessionCache = security.NewSessionCache()
 		}
 		s.Go("server", func() {
-			n, herr = security.NewAuthenticator(cfg, pr.SS).ServerHandshake(ctx)
+			a := security.NewAuthenticator(cfg, pr.SS)
+			a.ServerConfigForCommand = selector
+			n, herr = a.ServerHandshake(ctx)
 			if herr != nil {
 				pr.SE.Close()
 				return
@@ -293,7 +313,7 @@ func runResumed(s *kernel.Sim, c *scen.Case, p params) {
 			s.Go("peer-requester", func() {
 				st := pr.CS
 				ad := classad.New()
-				_ = ad.Set("Command", 60021)
+				_ = ad.Set("Command", cmd)
 				_ = ad.Set("UseSession", "YES")
 				_ = ad.Set("Sid", n1c.SessionId)
 				_ = ad.Set("ResumeResponse", true)
@@ -334,8 +354,11 @@ func runResumed(s *kernel.Sim, c *scen.Case, p params) {
 		}
 	} else {
 		ut, utStream = pr.CE, pr.CS
-		cfg := strict(60021)
+		cfg := strict(cmd)
 		cfg.SessionCache = cliCache
+		if p.ByID {
+			cfg.SessionID = n1c.SessionId
+		}
 		s.Go("client", func() {
 			n, herr = security.NewAuthenticator(cfg, pr.CS).ClientHandshake(ctx)
 			if herr != nil {
@@ -374,6 +397,15 @@ func runResumed(s *kernel.Sim, c *scen.Case, p params) {
 	if p.Peer != "" {
 		sig += "/" + p.Peer + "-requester"
 	}
+	if p.PerCmd {
+		sig += "/per-command-policy"
+	}
+	if p.Cmd0 {
+		sig += "/command-0"
+	}
+	if p.ByID {
+		sig += "/named-session"
+	}
 	if n.SessionResumed {
 		s.Probe("resumed/resumed")
 		if la == R && !authed {
@@ -410,15 +442,38 @@ func genResumed(g *scen.Gen) {
 					peers = []string{"", "scripted"}
 				}
 				for _, peer := range peers {
-					for a := 0; a < 4; a++ {
-						for e := 0; e < 4; e++ {
-							for _, integ := range []bool{false, true} {
-								if integ && e != 2 {
-									continue
-								}
+					if role == "client" {
+						for _, ae := range [][2]int{{0, 0}, {0, 2}, {2, 0}, {2, 2}} {
+							seed++
+							if !g.Emit(scen.Case{Seed: seed, Params: scen.Params(params{Role: role, A: ae[0], E: ae[1], Resume: kind, Where: where, ByID: true})}) {
+								return
+							}
+						}
+					}
+					for _, variant := range []struct{ percmd, cmd0 bool }{{false, false}, {true, false}, {true, true}, {false, true}} {
+						if role == "client" && variant.percmd {
+							continue
+						}
+						if variant.percmd || variant.cmd0 {
+							// the variants run the REQUIRED rows only (where a verdict is due)
+							for _, ae := range [][2]int{{0, 0}, {0, 2}, {2, 0}} {
 								seed++
-								if !g.Emit(scen.Case{Seed: seed, Params: scen.Params(params{Role: role, A: a, E: e, Integ: integ, Resume: kind, Where: where, Peer: peer})}) {
+								if !g.Emit(scen.Case{Seed: seed, Params: scen.Params(params{Role: role, A: ae[0], E: ae[1], Resume: kind, Where: where, Peer: peer, PerCmd: variant.percmd, Cmd0: variant.cmd0})}) {
 									return
+								}
+							}
+							continue
+						}
+						for a := 0; a < 4; a++ {
+							for e := 0; e < 4; e++ {
+								for _, integ := range []bool{false, true} {
+									if integ && e != 2 {
+										continue
+									}
+									seed++
+									if !g.Emit(scen.Case{Seed: seed, Params: scen.Params(params{Role: role, A: a, E: e, Integ: integ, Resume: kind, Where: where, Peer: peer})}) {
+										return
+									}
 								}
 							}
 						}
@@ -469,6 +524,7 @@ var serverDevs = []namedDev{
 	{"postauth-DENIED", puppet.Dev{ReturnCode: "DENIED"}},
 	{"postauth-in-clear", puppet.Dev{PostAuthClear: true}},
 	{"postauth-other-key", puppet.Dev{PostAuthOther: true}},
+	{"postauth-secret-marker", puppet.Dev{PostAuthMarker: true}},
 	{"negotiation-DENIED", puppet.Dev{NegReturnCode: "DENIED"}},
 	{"claim-rejected", puppet.Dev{AuthAnswer: "YES", ClaimFail: true}},
 }
